@@ -280,10 +280,10 @@ def check_batch(ctx: Ctx, stream, name, dtype, rows, shape, api, lines, metas, e
             # second call on the same object and algebra-level matrix(): bitwise the same answer
             P = U.pp()
             X2 = x.Exp()
-            if not torch.equal(X2.tensor().detach().double().reshape(-1, U.GDIM[name]), T):
+            if not torch.equal(torch.nan_to_num(X2.tensor().detach().double().reshape(-1, U.GDIM[name]), nan=1.25e300), torch.nan_to_num(T, nan=1.25e300)):
                 problems.append("repeat: a second Exp() on the same tensor gives a different result")
             M2 = x.matrix()
-            if not torch.equal(M2.detach().double().reshape(-1, U.MATN[name] ** 2), M):
+            if not torch.equal(torch.nan_to_num(M2.detach().double().reshape(-1, U.MATN[name] ** 2), nan=1.25e300), torch.nan_to_num(M, nan=1.25e300)):
                 problems.append("repeat: x.matrix() differs from x.Exp().matrix()")
             ctx.count("repeat-calls")
     except Exception as ex:  # the real code must not raise on a valid algebra element
@@ -293,6 +293,12 @@ def check_batch(ctx: Ctx, stream, name, dtype, rows, shape, api, lines, metas, e
         ctx.fail(case, pr)
     if T is None:
         return
+    if rows64:   # non-finite output for a finite input is a failure of the property by itself
+        bad = (~torch.isfinite(T)).any(dim=1) | (~torch.isfinite(M)).any(dim=1)
+        if bool(bad.any()):
+            i = int(bad.nonzero()[0])
+            ctx.fail(case | {"item": i}, f"nonfinite: Exp/matrix of a finite {U.ALG[name]} element is not finite ({dtype}, regime "
+                                         f"{regime_tag(name, rows64[i], e)}); x = {rows64[i]}")
     for i, xi in enumerate(rows64):
         lines.append(U.model_call(f"c01.{U.ALG[name]}", e, xi))
         metas.append((case, i, T[i].tolist(), M[i].tolist()))
@@ -666,12 +672,18 @@ def confirm_disagreements(ctx: Ctx, limit=12):
             break
 
 
-def run(ctx: Ctx):
+def probe(ctx: Ctx):
+    """stale reads: one algebra LieTensor is updated in place (add_, copy_, item assignment) and every read that goes
+    through Exp must describe the current state (shared helper util_lie.persistent_probe)"""
     from . import util_lie as _UL
     def _reads(name):
         return {"Exp": lambda o: o.Exp().tensor(), "matrix": lambda o: o.matrix(), "pp.Exp": lambda o: U.pp().Exp(o).tensor(),
                 "rotation": lambda o: o.rotation().tensor()}
     _UL.persistent_probe(ctx, _reads, algebra=True)
+
+
+def run(ctx: Ctx):
+    probe(ctx)
     lines, metas = [], []
     run_corpus(ctx, lines, metas)
     run_grid(ctx, lines, metas, reps_per_cell=ctx.pick(1, 10))
@@ -708,6 +720,12 @@ def search(ctx: Ctx):
 
 def replay(ctx: Ctx, case) -> bool:
     c = case["case"]
+    if "X" not in c:   # persistent-object probe (stale reads): deterministic, re-run it
+        print(f"  re-running the persistent-object probe ({c.get('type')}, {c.get('dtype')}, update {c.get('update')}, read {c.get('read')})")
+        probe(ctx)
+        for f in ctx.failures[:5]:
+            print("  fails:", f["what"][:300])
+        return not ctx.failures
     items = [c["item"]] if "item" in c else None
     print(f"  {U.ALG[c['type']]} {c['dtype']} batch shape {c['shape']}" + (f", item {c['item']}" if items else ""))
     base = {k2: v for k2, v in c.items() if k2 != "item"}
